@@ -30,6 +30,8 @@ LATTICE_QUICK = [
     {"max_cholesky_size": 0, "cg_tolerance": 1e-4, "min_preconditioning_size": 0, "max_preconditioner_size": 3},
     {"fast_solves": False, "max_cholesky_size": 0}, {"memory_efficient": True, "max_cholesky_size": 0, "cg_tolerance": 1e-2},
     {"linalg_cholesky": "float32"},
+    # thresholds between the size of a Kronecker / block component (2, 3) and of the whole operator (6, 9)
+    {"max_cholesky_size": 3, "cg_tolerance": 1e-4}, {"max_cholesky_size": 5, "cg_tolerance": 1e-4},
 ]
 
 
@@ -37,7 +39,7 @@ def lattice(tier):
     if tier == "quick":
         return LATTICE_QUICK
     out = []
-    for mcs, fs, tol, pre, me, ld in itertools.product([None, 0], [True, False], [1, 1e-2, 1e-4], [False, True], [False, True], [None, "float32"]):
+    for mcs, fs, tol, pre, me, ld in itertools.product([None, 0, 3, 5], [True, False], [1, 1e-2, 1e-4], [False, True], [False, True], [None, "float32"]):
         cfg = {}
         if mcs is not None:
             cfg["max_cholesky_size"] = mcs
@@ -100,7 +102,7 @@ def run(case):
     opb = tuple(dense.shape[:-2])
     heads = R.heads_of(case["term"])
     cfgs = case["cfg"]
-    base = {"name": name, "head": head, "kind": case["kind"], "nb": len(opb), "dt": case["dt"], "cg_forced": cfgs.get("max_cholesky_size") == 0,
+    base = {"name": name, "head": head, "kind": case["kind"], "nb": len(opb), "dt": case["dt"], "cg_forced": cfgs.get("max_cholesky_size") is not None and cfgs["max_cholesky_size"] < n,
             "cfg": ",".join(f"{k}={v}" for k, v in sorted(cfgs.items())), "br": "BatchRepeat" in heads, "has_chol_inv": False}
     eps = torch.finfo(dt).eps
     if cfgs.get("linalg_cholesky") == "float32":
